@@ -241,7 +241,7 @@ def sequential_case(case):
     mods = [b[0] for b in built]
     if form == "positional": S = nn.Sequential(*mods)
     else:
-        keys = ["zz", "b", "a_last"][: len(mods)]      # keys whose sorted order differs from insertion order
+        keys = (["zz", "b", "a_last"] + [f"k{99 - i}" for i in range(40)])[: len(mods)]      # keys whose sorted order differs from insertion order
         S = nn.Sequential(collections.OrderedDict(zip(keys, mods)))
     x = np.array([[1.0, -3.0], [-0.25, 2.0]])
     viol = []
@@ -370,6 +370,11 @@ def run(tier, seed):
     depth = 4 if tier == "quick" else 5
     res = explorer.explore(make_world, depth, time_budget=900 if tier == "thorough" else 100)
     seqs = [{"seq": list(c), "form": f} for n in (1, 2, 3) for c in itertools.product(LAYERS, repeat=n) for f in ("positional", "ordered_dict")]
+    # long pipelines (positional names "0" .. "12": string order differs from numeric order beyond ten stages)
+    for n in (10, 11, 12, 13, 21):
+        pat = [("double", "inc", "linear", "inc", "relu")[i % 5] for i in range(n)]
+        seqs += [{"seq": pat, "form": f} for f in ("positional", "ordered_dict")]
+        seqs += [{"seq": pat, "form": "positional", "edit": "append"}]
     seqs += [{"seq": list(c), "form": f, "repeat_first_last": True} for n in (2, 3) for c in itertools.product(LAYERS, repeat=n) for f in ("positional", "ordered_dict")]
     seqs += [{"seq": list(c), "form": f, "edit": e} for n in (1, 2, 3) for c in itertools.product(LAYERS, repeat=n) for f in ("positional", "ordered_dict")
              for e in ("replace_first", "replace_last_by_register", "append")]
@@ -393,7 +398,7 @@ def run(tier, seed):
                    "zero_grad on any node, one backward through all trainable parameters; after every event, for every module as "
                    "root: parameters() identity list (each reachable once; order = registration order, slot-keeping or latest-"
                    "registration both accepted), num_params x3, training flags, requires_grad flags, gradient presence; plus all "
-                   f"{nseq} Sequentials of <= 3 layers over {{x*2, x+1, relu, Linear}} positional and OrderedDict, every ordered tree shape with <= 5 modules (parameters() = depth-first pre-order, mode / freeze / zero_grad propagation, also with inner containers that hold no parameter of their own), also with the same module instance in two positions and with post-construction edits "
+                   f"{nseq} Sequentials of <= 3 layers (and pipelines of 10-21 stages) over {{x*2, x+1, relu, Linear}} positional and OrderedDict, every ordered tree shape with <= 5 modules (parameters() = depth-first pre-order, mode / freeze / zero_grad propagation, also with inner containers that hold no parameter of their own), also with the same module instance in two positions and with post-construction edits "
                    "(replace the first stage by attribute assignment, the last by register_module, append a stage)"}
     return {"level": "model_checking", "violations": res.violations, "coverage": cov,
             "assumptions": ["cycles in the module graph are excluded", "whether zero_grad also clears a frozen parameter's stale gradient is left open",
